@@ -344,10 +344,76 @@ def srcSafe : Option SplitShape → Bool
   | some (.map _) => false
   | _ => true
 
+/-- the call statements of a body that call `q`, with their environments -/
+def sitesIn (q : Bytes) : Env → List CallStm → List (Env × CallStm)
+  | _, [] => []
+  | Γ, c :: r =>
+    (if c.callee.name == q then [(Γ, c)] else []) ++
+      (match checkStm Γ c with
+        | some sh => sitesIn q { Γ with calls := Γ.calls ++ [(c.id, c.sig sh)] } r
+        | none => [])
+
+/-- a bare reference to an output of a singly-called STAGE of the same body: a value that only
+exists at run time, whatever the callers of the pipeline do -/
+def stageRef (P : Prog) (Γ : Env) : Exp → Bool
+  | .call id _ =>
+    (match Γ.calls.lookup id with
+      | some sig => (P.find sig.name).isNone && sig.src.isNone
+      | none => false)
+  | _ => false
+
+/-- `self.x` inside the pipeline named `q` is a run-time value in EVERY call of `q`:
+`q` is not the top pipeline (whose inputs are literals) and every call binds `x` to
+a bare reference to a stage output, plainly or split -/
+def selfRuntimeIn (P : Prog) (topName : Bytes) (q : Bytes) (x : Bytes) : Bool :=
+  q != topName &&
+    P.pipes.all fun p' =>
+      (sitesIn q { self := p'.ins, calls := [] } p'.calls).all fun site =>
+        match allBinds site.1 site.2.callee.params site.2.binds site.2.wild with
+        | none => false
+        | some bs =>
+          match bs.lookup x with
+          | some (.plain e) => stageRef P site.1 e
+          | some (.split e) => stageRef P site.1 e
+          | none => false
+
+/-- the keys of the MAP-mode call `c` of the body of `q` (environment `Γ`) are only
+known at run time, also after the bindings have been composed across pipeline
+boundaries: every split argument is a bare reference to a stage output of the
+body, or to an input that is a run-time value in every call of `q`.  Such a merge
+is resolved by `TopNode.resolveMerge` (an untyped-map destination takes it since
+2cc08f5); with statically known keys it is expanded to a map literal of
+references, which the resolver refuses inside an untyped map. -/
+def runtimeKeys (P : Prog) (topName : Bytes) (q : Bytes) (Γ : Env) (c : CallStm) : Bool :=
+  match allBinds Γ c.callee.params c.binds c.wild with
+  | none => false
+  | some bs => bs.all fun ib =>
+      match ib.2 with
+      | .plain _ => true
+      | .split (.call id p) => stageRef P Γ (.call id p)
+      | .split (.self x _) => selfRuntimeIn P topName q x
+      | .split _ => false
+
+/-- the composed form of a reference to the call `id` of the body of `q` is safe
+below an untyped map as far as the MODE of the call goes: not map-mode, or map-mode
+with run-time keys -/
+def modeSafe (P : Prog) (topName : Bytes) (q : Pipeline) (id : Bytes) (src : Option SplitShape) : Bool :=
+  srcSafe src ||
+    (sitesInBody q.calls).any fun site => site.2.id == id && runtimeKeys P topName q.name site.1 site.2
+where
+  sitesInBody (calls : List CallStm) : List (Env × CallStm) :=
+    allSites { self := q.ins, calls := [] } calls
+  allSites : Env → List CallStm → List (Env × CallStm)
+    | _, [] => []
+    | Γ, c :: r =>
+      (Γ, c) :: (match checkStm Γ c with
+        | some sh => allSites { Γ with calls := Γ.calls ++ [(c.id, c.sig sh)] } r
+        | none => [])
+
 /-- the composed form of the output `o` of the pipeline `q` is a reference (to an
 output of a stage) or a reference-free literal: its return binding is one, or a
 reference to such an output of a pipeline it calls (`fuel` levels) -/
-def pipeOutSafe (P : Prog) : Nat → Pipeline → Bytes → Bool
+def pipeOutSafe (P : Prog) (topName : Bytes) : Nat → Pipeline → Bytes → Bool
   | 0, _, _ => false
   | n + 1, q, o =>
     match checkCalls { self := q.ins, calls := [] } q.calls with
@@ -363,12 +429,12 @@ def pipeOutSafe (P : Prog) : Nat → Pipeline → Bytes → Bool
               | .call id path =>
                 (match Γ.calls.lookup id with
                   | some sig =>
-                    srcSafe sig.src &&
+                    modeSafe P topName q id sig.src &&
                       (match P.find sig.name with
                         | none => true
                         | some q' =>
                           match path with
-                          | o' :: _ => pipeOutSafe P n q' o'
+                          | o' :: _ => pipeOutSafe P topName n q' o'
                           | [] => false)
                   | none => false)
               | _ => false)
@@ -377,39 +443,30 @@ def pipeOutSafe (P : Prog) : Nat → Pipeline → Bytes → Bool
 /-- a BARE reference whose composed form is still a reference or a reference-free
 literal: an output of a stage (not map-mode), such an output of a nested pipeline,
 or an input `self.x` for which `selfSafe x` holds -/
-def bareSafe (P : Prog) (fuel : Nat) (selfSafe : Bytes → Bool) (Γ : Env) : Exp → Bool
+def bareSafe (P : Prog) (topName : Bytes) (fuel : Nat) (cur : Pipeline) (selfSafe : Bytes → Bool) (Γ : Env) : Exp → Bool
   | .call id path =>
     (match Γ.calls.lookup id with
       | some sig =>
-        srcSafe sig.src &&
+        modeSafe P topName cur id sig.src &&
           (match P.find sig.name with
             | none => true
             | some q =>
               match path with
-              | o :: _ => pipeOutSafe P fuel q o
+              | o :: _ => pipeOutSafe P topName fuel q o
               | [] => false)
       | none => false)
   | .self x _ => selfSafe x
   | _ => false
 
 /-- an argument of a call of a nested pipeline: what `self.x` stands for inside it -/
-def argSafe (P : Prog) (fuel : Nat) (callerIsTop : Bool) (Γ : Env) (e : Exp) : Bool :=
-  !e.hasRef || bareSafe P fuel (fun _ => callerIsTop) Γ e
+def argSafe (P : Prog) (topName : Bytes) (fuel : Nat) (caller : Pipeline) (Γ : Env) (e : Exp) : Bool :=
+  !e.hasRef || bareSafe P topName fuel caller (fun _ => caller.name == topName) Γ e
 
-def bindArgSafe (P : Prog) (fuel : Nat) (callerIsTop : Bool) (Γ : Env) : Bind → Bool
-  | .plain e => argSafe P fuel callerIsTop Γ e
-  | .split (.arr xs) => xs.toList.all (argSafe P fuel callerIsTop Γ)
-  | .split (.map _ kvs) => kvs.toList.all fun kv => argSafe P fuel callerIsTop Γ kv.2
-  | .split e => argSafe P fuel callerIsTop Γ e
-
-/-- the call statements of a body that call `q`, with their environments -/
-def sitesIn (q : Bytes) : Env → List CallStm → List (Env × CallStm)
-  | _, [] => []
-  | Γ, c :: r =>
-    (if c.callee.name == q then [(Γ, c)] else []) ++
-      (match checkStm Γ c with
-        | some sh => sitesIn q { Γ with calls := Γ.calls ++ [(c.id, c.sig sh)] } r
-        | none => [])
+def bindArgSafe (P : Prog) (topName : Bytes) (fuel : Nat) (caller : Pipeline) (Γ : Env) : Bind → Bool
+  | .plain e => argSafe P topName fuel caller Γ e
+  | .split (.arr xs) => xs.toList.all (argSafe P topName fuel caller Γ)
+  | .split (.map _ kvs) => kvs.toList.all fun kv => argSafe P topName fuel caller Γ kv.2
+  | .split e => argSafe P topName fuel caller Γ e
 
 /-- `self.x` inside `q`: `q` is the top pipeline (its inputs are reference-free
 literals of the top-level call), or EVERY call of `q` in the program binds `x` to a
@@ -423,7 +480,7 @@ def selfSafeIn (P : Prog) (fuel : Nat) (topName : Bytes) (q : Pipeline) (x : Byt
         | none => false
         | some bs =>
           match bs.lookup x with
-          | some b => bindArgSafe P fuel (p'.name == topName) site.1 b
+          | some b => bindArgSafe P topName fuel p' site.1 b
           | none => false
 
 mutual
@@ -474,7 +531,7 @@ def umapCalls (safe : Env → Exp → Bool) : Env → List CallStm → Bool
 whose top pipeline is `topName` -/
 def umapPipe (P : Prog) (topName : Bytes) (p : Pipeline) : Bool :=
   let fuel := P.pipes.length + 1
-  let safe : Env → Exp → Bool := fun Γ => bareSafe P fuel (selfSafeIn P fuel topName p) Γ
+  let safe : Env → Exp → Bool := fun Γ => bareSafe P topName fuel p (selfSafeIn P fuel topName p) Γ
   umapCalls safe { self := p.ins, calls := [] } p.calls &&
   (match checkCalls { self := p.ins, calls := [] } p.calls with
     | none => true
@@ -494,6 +551,28 @@ def progOk (P : Prog) (top : CallStm) : Bool :=
       | some sh => okStm P emptyEnv top sh
       | none => false) &&
     P.pipes.all (fun p => umapPipe P top.callee.name p)
+
+/-- `progOk` without the hypothesis about composed bindings -/
+def progOkCore (P : Prog) (top : CallStm) : Bool :=
+  P.pipes.all (okPipe P) && validTop top &&
+    (match checkStm emptyEnv top with
+      | some sh => okStm P emptyEnv top sh
+      | none => false)
+
+/-- what happens when the program is handed to the run time -/
+inductive Outcome where
+  /-- `InvokePipeline` refuses the program BY DESIGN: a reference would be bound
+  inside an untyped map (`MakePipelineCallGraph`: "reference … cannot be bound
+  inside an untyped map").  In the model: `umapPipe` fails for some pipeline – a
+  conservative stand-in (the real code refuses only if the model does; tied per
+  run), not a model of the composition. -/
+  | refusedAtInvoke
+  | ran (r : Res (Env × Store))
+
+/-- invoke, then run -/
+def invokeAndRun (P : Prog) (O : Oracle) (n : Nat) (top : CallStm) : Outcome :=
+  if P.pipes.all (fun p => umapPipe P top.callee.name p) then .ran (runProgram P O n top)
+  else .refusedAtInvoke
 
 /-- no call of the program has a `disabled` modifier -/
 def noDisabled (P : Prog) (top : CallStm) : Bool :=
